@@ -104,8 +104,10 @@ impl<T: Write + Seek> ShapeWriter<T> {
                     max: PointZ::new(f64::MIN, f64::MIN, f64::MIN, f64::MIN),
                     min: PointZ::new(f64::MAX, f64::MAX, f64::MAX, f64::MAX),
                 };
+                self.shp_dest.seek(SeekFrom::Start(0))?;
                 self.header.write_to(&mut self.shp_dest)?;
                 if let Some(shx_dest) = &mut self.shx_dest {
+                    shx_dest.seek(SeekFrom::Start(0))?;
                     self.header.write_to(shx_dest)?;
                 }
             }
